@@ -153,6 +153,7 @@ impl pl::PlFold for Resolver<'_> {
 
             pl::ExprKind::FuncCall(pl::FuncCall { name, args, .. })
                 if (name.kind.as_ident()).is_some_and(|i| i.to_string() == "std.not")
+                    && args.len() == 1
                     && matches!(args[0].kind, pl::ExprKind::Tuple(_)) =>
             {
                 let arg = args.into_iter().exactly_one().unwrap();
